@@ -56,7 +56,8 @@ def cases(seed, tier):
         c = {"base": base, "spec": spec, "k": k, "swc": None, "integrate_before": bool(k % 3 == 0), "set_ncomp_before": bool(k % 4 == 1),
              "trainable": bool(k % 2 == 0), "clamp": bool(k % 5 == 1), "view_copy": bool(k % 6 == 2), "ncomp": int(rng.integers(1, 4))}
         if base in ("swc", "swc_net"):
-            c["swc"] = swcgen.random_swc(rng, max_sections=6, single_point_soma=bool(k % 2 == 0), max_pts=4, zero_len_prob=0.0)
+            c["swc"] = swcgen.random_swc(rng, max_sections=6, single_point_soma=bool(k % 2 == 0), max_pts=4, zero_len_prob=0.0,
+                                           from_soma_start=bool(k % 8 == 5))  # a neurite leaving the FIRST soma point: read_swc pads a root branch
         out.append(c)
     return out
 
@@ -80,6 +81,7 @@ def build(case):
             cell = jx.read_swc(path, ncomp=case["ncomp"], min_radius=0.1)
         finally:
             os.remove(path)
+        case["_padded_root"] = any(getattr(f, "func", None) is not None and getattr(f.func, "__name__", "") == "_padded_radius" for f in (cell._radius_generating_fns or []))
         cell.insert(HH())
         cell.branch(0).insert(K())
         if case["base"] == "swc_net":
@@ -350,7 +352,7 @@ def run_case(case, rec):
             rec.check("sim_equal", np.array_equal(ob, out0, equal_nan=True), what="base of a pickled view simulates differently", method="pickle(view)", **tag)
         except Refused as r:
             rec.violated("tables_equal", what="pickle of a view raised", error=repr(r.exc)[:200], **tag)
-    rec.sig(f"{case['base']}|sps{int(tag['single_point_soma'])}|syn{int(len(m.edges) > 0)}|tr{int(case['trainable'])}|{backend}")
+    rec.sig(f"{case['base']}|sps{int(tag['single_point_soma'])}|syn{int(len(m.edges) > 0)}|tr{int(case['trainable'])}|{backend}|pad{int(bool(case.get('_padded_root')))}")
 
 
 def classify(case, v):
